@@ -1480,7 +1480,9 @@ pub fn run(opts: &Opts) -> Option<(Stats, Vec<String>, String)> {
             // beyond the next power of two (4096): buffers, batches and search
             // cut-offs sized by a round constant. build() is cubic in the number of conflicting
             // functions, so only a handful of functions declare accesses.
-            fam = [Family::FanOut, Family::Isolated, Family::FanIn, Family::Chain][((i / (cases / huge_per_run).max(1)) % 4) as usize];
+            // shallow shapes only: on a deep one (a chain) build() itself needs minutes, it asks
+            // has_path_connecting for every pair before it looks at the declarations
+            fam = [Family::FanOut, Family::Isolated, Family::FanIn][((i / (cases / huge_per_run).max(1)) % 3) as usize];
             // (the reference model is cubic as well: 8000+ functions would run into the per-case watchdog on a loaded machine)
             n = rng.range(4100, 4600);
             p.hostile_calls = false;
